@@ -269,4 +269,5 @@ class ApplyOperation(Contract):
 
 
 def extra_table(L, BaseState):
-    return []
+    from . import contracts2
+    return contracts2.table(L, BaseState)
